@@ -84,7 +84,7 @@ class NumpyBackendProvider(BackendProvider):
 
     def argsort(self, a, descending=False):
         """Return indices that would sort the array."""
-        indices = np.argsort(a)
+        indices = np.argsort(a, kind='stable')  # equal elements keep their order of appearance
         if descending:
             indices = indices[::-1].copy()
         return indices
